@@ -131,6 +131,30 @@ Proof.
 Qed.
 Print Assumptions C03_isinstance_iff_example.
 
+(* Without `tight` the converse fails even under wf_inh: the walk leaves a sequence only after an
+   element that ADDED a class, so  A: C | 'k' C D;  records [C; D] and textx_isinstance(d_obj, A) is
+   true although A never yields a D object.  The recorded lists are then exactly the declarative
+   early-exit walk over the final kinds (`recorded`, Model/Kinds.v; compared with _tx_inh_by on every
+   generated grammar without a cycle through abstract rules - tested, not proved in general). *)
+Theorem C03_isinstance_implies_yields_refuted :
+  exists (g : list rule) s rank, determine_types g = Some s /\ wf_inh g (types s) rank /\
+    inh_is_recorded g s = true /\
+    isinstance (length g) (inh s) 2 (Some 0) = Some true /\ ~ yields g (types s) 0 2.
+Proof.
+  exists [ {| r_attrs := false; r_body := Body (Choice [Ref 1; Seq [Term; Ref 1; Ref 2]]) |};
+           {| r_attrs := true; r_body := Body Term |};
+           {| r_attrs := true; r_body := Body Term |} ].
+  eexists. exists (fun _ => 0). split; [vm_compute; reflexivity|]. split; [|split; [reflexivity | split; [reflexivity|]]].
+  - split.
+    + intros x y Hx Hy Ky. destruct x as [|[|[|x]]]; try discriminate Hx.
+      destruct Hy as [<-|[<-|[<-|[]]]]; discriminate Ky.
+    + intros x e Hx Hb. destruct x as [|[|[|x]]]; try discriminate Hx. inversion Hb. reflexivity.
+  - intro H. inversion H as [|x y z Kx Hy Hyz]; subst.
+    simpl in Hy. destruct Hy as [<-|[<-|[]]];
+      (inversion Hyz as [|x' y' z' Kx' _ _]; subst; discriminate Kx').
+Qed.
+Print Assumptions C03_isinstance_implies_yields_refuted.
+
 (* ---- objects.  Whatever the parse tree and the kinds, every object that process_node creates
    is an instance of a rule whose kind is common (an abstract rule's class is never
    instantiated, a match rule never gives an object). *)
